@@ -17,7 +17,8 @@ ANCHORED = ["demographic_parity_difference", "equalized_odds_ratio", "_DerivedMe
 RULE = ("exh_named/exh_genrate: every (y, y_pred) in {0,1}^n x {0,1}^n crossed with every set partition of the n rows "
         "into groups (restricted-growth strings), n<=3 fully + n=4 sampled (quick) / n<=4 fully + n=5 sampled "
         "(thorough), unweighted, all 6 named functions x method x agg resp. the 10 generated rate functions x method; "
-        "rand_*: n<=30, 1..4 groups (skewed sizes so single-member and single-class groups are frequent), positive "
+        "rand_*: n<=30, 1..4 groups (skewed sizes so single-member and single-class groups are frequent; 30% with two sensitive "
+        "columns given as DataFrame / dict / 2-D array, groups = value tuples), positive "
         "int/real weights in 70% of cases; generated sklearn metrics evaluated by calling sklearn on each group's "
         "rows; derived: make_derived_metric on a custom weighted metric with a bound parameter vs row-level reference "
         "and vs the equivalent MetricFrame call. distinct = distinct (class, n, group sizes, per-group confusion "
@@ -221,6 +222,14 @@ def run_case(cls, key, seed, ctx):
     if cls == "rand_named":
         y, p, g, w = _rand_dataset(rng)
         cy, cp, cg, cw = _wrap(rng, y, p, g, w)
+        if rng.random() < 0.3:
+            # two sensitive columns: the groups are the observed value tuples (intersections)
+            import pandas as pd
+
+            g2 = [["u", "v", "w"][i] for i in gen.skewed_labels(rng, len(y), int(rng.integers(1, 4)))]
+            cols = {"sa": list(g), "sb": g2}
+            cg = gen.pick(rng, [pd.DataFrame(cols), cols, np.column_stack([np.asarray(g, dtype=object), np.asarray(g2, dtype=object)])])
+            g = [(repr(a), b) for a, b in zip(g, g2)]
         ctx.mark(_sig(cls, y, p, g, w), len(set(g)) >= 2, sample={"y_true": y, "y_pred": p, "groups": g, "weights": w})
         check_named(ctx, M, y, p, g, w, cy, cp, cg, cw)
         if rng.random() < 0.4:
